@@ -122,7 +122,8 @@ def observe(units, files, where, unit_order):
     with F.Work(files) as w:
         with forced_order(w.root, rels), correlate_spy(log):
             try:
-                p = F.parse_project(w.root, proc_internals=True, display=["public", "private", "protected"])
+                p = F.parse_project(w.root, proc_internals=True, display=["public", "private", "protected"],
+                                    extra_mods=dict(G.EXTRA_MODS))
             except Exception as e:  # noqa
                 return "EXC:" + type(e).__name__, None, [str(e)[:300]]
         problems = []
@@ -223,7 +224,8 @@ def html_refs(units, files):
     if any(len(v) > 1 for v in owners.values()):
         return []
     with F.Work(files) as w:
-        data, out, err = F.full_run_inprocess(w.root, {"display": ["public", "private", "protected"]})
+        data, out, err = F.full_run_inprocess(w.root, {"display": ["public", "private", "protected"],
+                                                       "extra_mods": [f"{k}: {v}" for k, v in G.EXTRA_MODS.items()]})
         if err:
             return "full run failed: " + err
         page = w.root / "doc" / "program" / (prog["name"].lower() + ".html")
